@@ -251,6 +251,24 @@ func ext۰reflect۰Value۰Kind(fr *frame, args []value) value {
 	return uint(reflectKind(rV2T(args[0]).t))
 }
 
+// CanInt / CanUint / CanFloat / CanConvert-free kind predicates of reflect.Value.
+func kindIn(args []value, lo, hi reflect.Kind) value {
+	if rV2T(args[0]).t == nil {
+		return false
+	}
+	k := reflectKind(rV2T(args[0]).t)
+	return k >= lo && k <= hi
+}
+func ext۰reflect۰Value۰CanInt(fr *frame, args []value) value {
+	return kindIn(args, reflect.Int, reflect.Int64)
+}
+func ext۰reflect۰Value۰CanUint(fr *frame, args []value) value {
+	return kindIn(args, reflect.Uint, reflect.Uintptr)
+}
+func ext۰reflect۰Value۰CanFloat(fr *frame, args []value) value {
+	return kindIn(args, reflect.Float32, reflect.Float64)
+}
+
 func ext۰reflect۰Value۰String(fr *frame, args []value) value {
 	// Signature: func (reflect.Value) string
 	return toString(rV2V(args[0]))
